@@ -124,7 +124,9 @@ CLAIMED['C11'] = {
     'text': 'proof: refinement of a two-plain-maps specification by the model of the environ/timeout/cd bookkeeping (None = inherit, populate on first modification, act '
             'applier only in [setup], act settings captured after setup/main, the _expand_vars scanning loop) for ALL histories (C11_refines), expansion = the declarative '
             'left-to-right substitution for all strings, no backward effect (pointwise and trace form), act process sees the act set and others the non-act set, timeout '
-            'and cd persist forward incl. into cleanup after a failure; `env -of act` outside [setup] proved unobservable. 15 theorems closed under the global context. '
+            'and cd persist forward incl. into cleanup after a failure; `env -of act` outside [setup] proved unobservable; the timeout and directory handed to a program that computes an '
+            'env value; linked to the executor (Props/C11C01.v): the points at which the settings model executes instructions are exactly the main-step events of C01\'s full_execute, so '
+            '"later" is the proved execution order. 22 theorems closed under the global context. '
             'Tie: ~1200 histories with real probe processes + 4000 direct _expand_vars cases per quick run.',
     'note': 'Modelled, not verified: environ/impl.py appliers + _expand_vars (regex modelled), InstructionSettings / SetupSettingsBuilder, timeout, cd, executor per-instruction '
             'environment and act capture, phase order with halting. Trusted: the hand model, harness/c11.py, dash/env/pwd as probes. Timeout observed as the value handed to the '
@@ -223,7 +225,9 @@ CLAIMED['C07'] = {
             'sequence; the document reader (default section, headers, comment/blank grouping, multi-line instructions as oracle extents, inclusion with the chain of including '
             'files) = the declarative reading "elements by governing header, in file order"; phase order irrelevant; source locations exact (first line, consumed lines, '
             'inclusion chain); error locations exact also when a parser raises after consuming input (directives, multi-line instructions); a malformed `including` is '
-            'reported at its own line; include is a splice; unknown section / inclusion cycle is an error; the reader terminates. 15 theorems closed under the global context.',
+            'reported at its own line; include is a splice; unknown section / inclusion cycle is an error; the reader terminates. 15 theorems closed under the global context, plus the composition with C01 '
+            '(Props/C07C01.v): the executed test case is a function of the per-phase contents only, so permuting phase blocks gives the same execution trace and result for all '
+            'instruction semantics, and the failing instruction named in an outcome is traced to its exact source line and inclusion chain.',
     'note': 'Hand-written model of parse_source.py and the document reader (document_parser._Impl/parse_file/_include_files/_add_raw_doc, element parsers, act parser, inclusion '
             'directive parser) over real line texts; modelled, not verified. Instruction parsers, path resolution and file contents are explicit oracles (Section variables; tables '
             'computed from the running code per case). ASCII only. Tie: ~8400 (quick) / ~92700 (thorough) cases incl. exhaustive small documents, inclusion graphs with '
